@@ -3,9 +3,9 @@ prop(
     quick=[("native", 8), ("miri", 4)],
     thorough=[("native", 16), ("miri", 8)],
     level="exploration",
-    min_evals={"quick": 10_000_000, "thorough": 240_000_000},
+    min_evals={"quick": 30_000_000, "thorough": 560_000_000},
     rule=(
-        "Five workloads, every case judged by oracles written in the harness (proleptic Gregorian calendar by closed form, "
+        "Seven workloads, every case judged by oracles written in the harness (proleptic Gregorian calendar by closed form, "
         "cross-checked against a running day counter over all 3 652 059 days; strict RFC 5280 time parser; i64 interval model; "
         "big-integer decimal / minimal DER INTEGER / comparison). "
         "(1) instant -> Time -> encode_varied -> tag must be UTCTime for 1950-2049 else GeneralizedTime, the text must be the strict form naming "
@@ -30,10 +30,36 @@ prop(
         "std::io::BufWriter of capacity 1/4/8/16 over a short-writing sink; sinks answering every 2nd/3rd call with ErrorKind::Interrupted. "
         "Law: Ok(()) only if exactly the octets that arrive in a Vec have arrived (the Vec output itself is compared with harness-written DER: "
         "the canonical time form of the year, der::uint_be, their sequences); any Err is accepted and counted by cause. "
+        "(6) the decoders driven through bcder::decode::Source implementations of the harness (c17_source.rs): Time::take_from / take_opt_from, "
+        "Validity::take_from, Serial::take_from, CrlEntry::take_from / take_opt_from, RevokedCertificates::take_from (+ iter), TbsCertList::take_from, "
+        "Crl::take_from and ManifestContent::take_from, in Mode::Der and Mode::Ber, on DER written by the harness (der.rs + the calendar / strict parser of this "
+        "module, so the expected instants and serial octets are known without the library): 48000 / 1200000 valid seconds (12 boundary seconds, pivots, range "
+        "ends), the near-valid neighbourhood of 96 / 1200 of them (every single substitution over all 256 byte values, truncations, deletions, insertions, "
+        "appended octets, seconds-omitted / fraction / offset / two-terminator shapes, other tags, BER length forms), 24000 / 600000 validity windows (both "
+        "forms on either side, a near-valid time on either side, structural variants), the boundary serials of part 4 plus 24000 / 600000 random ones and ten "
+        "non-minimal / negative / over-long INTEGER forms of every 16th, 16000 / 320000 CRL entries, revoked lists of 0..40 entries, TBSCertLists, whole CRLs "
+        "and manifest contents around them (every fourth with one near-valid time somewhere). Every input goes through: &[u8], Bytes, and the harness source "
+        "showing everything at once; showing ceil(n/k)*k octets from the current position per request(n) for k = 1, 2, 7, 13, 16; filling blocks of 2, 7, 13, 16 "
+        "octets counted from the start of the input; showing n+1 / n+5 octets per request(n) (slice() shows only what has been made visible; advance / bytes beyond "
+        "it panic as the trait documents). Laws: a valid canonical input is accepted with exactly the harness' values through every source; an input containing "
+        "a time the strict parser refuses is refused through every source; where the statement leaves the verdict open (year 0000, valid but not canonical "
+        "form, BER length forms, odd INTEGER forms, structural variants) every source gives what the slice gives. Valid inputs also go through sources that "
+        "return Err once a chosen offset (every offset) is needed: a value may only come out if every octet was delivered. "
+        "(7) the decimal text of serial numbers through every reader (c17_text.rs): Serial::from_str, serde over serde_json::from_str / from_reader / "
+        "from_value and over the token format of the harness (human-readable and compact, borrowed / transient / owned strings), CrlEntry::from_str with and "
+        "without '@time', for the boundary serials plus 24000 / 600000 random ones (magnitudes below 2^64, up to 2^128 and above equally frequent): the canonical "
+        "text (oracle decimal and Display) must be accepted by every reader with the same value; the token Serialize produces must read back over every "
+        "transport; 30 decorated spellings ('+5', '05', '0005', sixty zeros, '+005', blanks before / after / around, ' +5', '-5', '-05', '5+', '++5', '+-5', "
+        "'+ 5', digit groups with _ , and space, '5.0', '5e0', '0x5', trailing NUL / letter, Arabic-Indic and fullwidth digits, fullwidth plus, U+2212, "
+        "NBSP) are offered to every reader: acceptance is counted per class, per reader and per magnitude, never judged; judged is only numeric faithfulness - "
+        "a spelling with one conventional reading (optional '+', leading zeros, ASCII blanks around) that is accepted must give that number, and a numeral with "
+        "a minus sign must not give a serial (other than for -0). "
         "A case signature is (encoding chosen, era, date class) / (every-second day) for part 1, (tag, mutation class = field and character "
         "class or shape, oracle verdict and reason, library verdict) for part 2, (relation of now to both bounds, window empty?) and trim shape "
         "for part 3, (significant length, leading-octet class) for part 4, (encoder, sink kind, element and header/content region in which the sink refuses or whether a call was taken short, "
-        "Ok/Err reported) for part 5; evaluations counts single oracle comparisons (one per sink run in part 5)."
+        "Ok/Err reported) for part 5, (entry point, mode, object, input class, oracle verdict, verdict from the slice, whether the sources agree) and "
+        "(entry point, object, kind of source, where it fails, outcome) for part 6, (spelling class, magnitude, significant length class, accepted?) for part 7; "
+        "evaluations counts single oracle comparisons (one per sink run in part 5, one per decode in part 6, one per reader call in part 7)."
     ),
     assumptions=[
         "only whole seconds are in scope: Time values with a sub-second part and chrono's leap-second representation are not generated",
@@ -43,6 +69,9 @@ prop(
         "Serial values with the top bit of octet 0 set are not representable (from_array rejects them, recorded); the text of zero may be '' or '0' (observed: empty string)",
         "TLVs are decoded in bcder Mode::Der; BER length variants are not part of the statement",
         "'encodes' is read as: the octets an encoder delivers do not depend on how the io::Write it is given takes them, and Ok(()) means all of them were delivered; which error is reported when the sink refuses, and an error from a sink that took everything (only slowly, or after ErrorKind::Interrupted), are left open (observed: none)",
+        "'decodes' is read as: the value a decoder returns depends on the octets, not on how the Source hands them out; the Source contract is the one documented in bcder 0.7 (data becomes visible through request(), slice() is at least as long as the last request's answer, advance() / bytes() stay within it); sources are in-memory with deterministic visibility policies, no source blocks or delivers different octets on a retry",
+        "in part 6 the expectation 'accepted' is only set for inputs that are valid under RFC 6487 / 9286 as far as the harness writes them (CRL v2 with AKI and CRL number, revokedCertificates absent when empty, manifests with GeneralizedTime); UTCTime inside a manifest, a present but empty revokedCertificates and every BER / non-minimal form are 'open' (sources must agree, nothing else)",
+        "which texts other than the decimal text Serial::from_str must refuse is not part of the statement (DESIGN 12.4): acceptance of decorated spellings is recorded per class ('serial_text_accepted:*', '...by_magnitude:*'), a note is written when acceptance of a class depends on the magnitude; only a wrong number coming out of an accepted conventional numeral is a violation (observed on the unchanged tree: leading zeros accepted, everything else refused; the empty string reads as zero)",
         "sinks are synchronous io::Write implementations of the harness and of std (slice, Cursor, BufWriter); tag and length octets are written by bcder, the content octets by rpki-rs; Mode::Der only",
     ],
     level_text=(
@@ -52,8 +81,8 @@ prop(
         "uses from_utf8_unchecked) and a handful of sink runs. The encoders are additionally run against an enumeration of sink behaviours (every per-call "
         "quantum, every refusal offset, every failing call, every slice size) for boundary and sampled values. Enumeration plus independent reference implementations is the natural level for pure value-level properties."
     ),
-    level_note="Trusts the harness' 60-line calendar and parser (self-tested against external anchors such as 2^31-1 = 2038-01-19T03:14:07Z and against a running day counter); seconds other than the enumerated ones are sampled, not enumerated.",
-    technique="runtime oracles (independent calendar, strict time parser, interval model, big-integer model) over exhaustive-by-day enumeration and mutation neighbourhoods; encoders swept over short-writing, refusing, interrupting and fixed-size sinks (fault enumeration per offset / call) + Miri",
+    level_note="Parts 6 and 7 are environment / input-space enumerations around the same oracles: eleven visibility policies of a Source times every decoder entry point times two modes, and 30 spellings times twelve readers; a decoder that misbehaves only for a policy outside these (for example one that depends on the history of earlier values decoded from the same source) is not covered. Trusts the harness' 60-line calendar and parser (self-tested against external anchors such as 2^31-1 = 2038-01-19T03:14:07Z and against a running day counter); seconds other than the enumerated ones are sampled, not enumerated.",
+    technique="runtime oracles (independent calendar, strict time parser, interval model, big-integer model) over exhaustive-by-day enumeration and mutation neighbourhoods; encoders swept over short-writing, refusing, interrupting and fixed-size sinks (fault enumeration per offset / call); decoders swept over lazily delivering, generous and failing Source implementations; serial text over every reader and decorated spellings + Miri",
     design_ref="DESIGN.md §4 C17",
     exhaustive_scope="thorough tier, native stage: every day of the years 1..9999 at 00:00:00, 12:34:56 and 23:59:59 through encode_varied / take_from (tag choice and instant); everything else is sampled or bounded as described in the rule",
 )
